@@ -165,18 +165,18 @@ func buildCorpus(caseFiles []string, repo string, tier string, rng *rand.Rand) (
 	// junk, polyglots, degenerate inputs
 	sig := gen.PNGSig
 	junk := map[string][]byte{
-		"empty":          {},
-		"one":            {0x89},
-		"rand16":         gen.Payload(16, 1, false),
-		"rand9000":       gen.Payload(9000, 2, false),
-		"pngsig":         sig,
-		"pngsig+junk":    append(append([]byte{}, sig...), gen.Payload(6000, 3, false)...),
-		"pngsig+zeros":   append(append([]byte{}, sig...), make([]byte, 5000)...),
-		"soi":            {0xFF, 0xD8},
-		"soi+junk":       append([]byte{0xFF, 0xD8}, gen.Payload(5000, 4, false)...),
-		"riff":           []byte("RIFF\x10\x00\x00\x00WEBP"),
-		"riff+junk":      append([]byte("RIFF\x10\x00\x00\x00WEBPJUNK"), gen.Payload(5000, 5, false)...),
-		"riff-not-webp":  append([]byte("RIFF\x10\x00\x00\x00WAVEfmt "), gen.Payload(50, 6, false)...),
+		"empty":         {},
+		"one":           {0x89},
+		"rand16":        gen.Payload(16, 1, false),
+		"rand9000":      gen.Payload(9000, 2, false),
+		"pngsig":        sig,
+		"pngsig+junk":   append(append([]byte{}, sig...), gen.Payload(6000, 3, false)...),
+		"pngsig+zeros":  append(append([]byte{}, sig...), make([]byte, 5000)...),
+		"soi":           {0xFF, 0xD8},
+		"soi+junk":      append([]byte{0xFF, 0xD8}, gen.Payload(5000, 4, false)...),
+		"riff":          []byte("RIFF\x10\x00\x00\x00WEBP"),
+		"riff+junk":     append([]byte("RIFF\x10\x00\x00\x00WEBPJUNK"), gen.Payload(5000, 5, false)...),
+		"riff-not-webp": append([]byte("RIFF\x10\x00\x00\x00WAVEfmt "), gen.Payload(50, 6, false)...),
 	}
 	// JPEG without a start-of-frame but with a long run of segments before SOS
 	jnosof, _ := gen.BuildJPEG([]gen.JSeg{gen.SOI(), gen.APP(1, gen.Payload(6000, 7, true)), gen.DQT(0), gen.SOS(3, gen.EntropyBytes(100, 1)), gen.EOI()})
